@@ -217,6 +217,10 @@ def isObjVal : E → Bool
   | .bin .pipe l r => cat l == .query && !isOpen l && Nat.ble 3 (level l) && isObjVal r
   | e => cat e == .query && !isOpen e && Nat.ble 3 (level e)
 
+def notDot : E → Bool
+  | .dot => false
+  | _ => true
+
 def isLitKw : Kw → Bool
   | .null => true | .true_ => true | .false_ => true | _ => false
 
@@ -252,7 +256,7 @@ mutual
     | .opt t => wf t && isPostfixable t
     | .sfxField t _ => wf t && isPostfixable t
     | .sfxStr t s => wf t && isPostfixable t && wf s && isStr s
-    | .sfxBr t b => wf t && isPostfixable t && (match t with | .dot => false | _ => true) && wf b && cat b == .bracket
+    | .sfxBr t b => wf t && isPostfixable t && notDot t && wf b && cat b == .bracket
     | .bin o l r =>
       wf l && wf r && isQ l && isQ r && !openRight l && Nat.ble o.lmin (level l) &&
       (if isOpen r then o.queryLevel else Nat.ble o.rmin (level r))
@@ -587,6 +591,6 @@ def parseFuel (fuel : Nat) (ts : List Tok) : Option E :=
   | some (e, []) => some e
   | _ => none
 
-def parse (ts : List Tok) : Option E := parseFuel (6 * ts.length + 6) ts
+def parse (ts : List Tok) : Option E := parseFuel (8 * ts.length + 8) ts
 
 end FqModel.C11.Full
